@@ -224,3 +224,71 @@ Definition run_case (c : ocase) : option (list (ost * cmap)) :=
 
 Definition check_ocase (c : ocase) : bool :=
   match run_case c with Some _ => true | None => false end.
+
+(** ** The cell taggers on real runs (C10 on recorded runs).
+    At every leg the tracer calls each tagger's real [yield_identifiers_send_event_time] on the current active state
+    ([fresh]) and records whether the tagger is activated.  [check_tcase_run] replays the occupancy as above and
+    requires, for every cell-based tagger connected to this occupancy, that the recorded generation equals the
+    model's tagger function applied to the replayed state (as a multiset of in-state tuples; inside a tuple the active
+    identifier in place and the targets as a multiset); deactivated taggers generate nothing. *)
+Inductive tkind := TVeto | TBounding | TNearby | TSurplus | TBoundary.
+
+Definition model_gen (cs : cellsys lz) (k : tkind) (s : ost) : list (list lz) :=
+  match k with
+  | TVeto => cell_veto_tagger s
+  | TBounding => cell_bounding_tagger list_Z_eqb cs s
+  | TNearby => excluded_cells_tagger list_Z_eqb cs s
+  | TSurplus => surplus_cells_tagger s
+  | TBoundary => cell_boundary_tagger s
+  end.
+
+Definition tuple_eqb (a b : list lz) : bool :=
+  match a, b with
+  | [], [] => true
+  | x :: a', y :: b' => list_Z_eqb x y && same_members a' b'
+  | _, _ => false
+  end.
+
+Fixpoint remove_tuple (x : list lz) (l : list (list lz)) : option (list (list lz)) :=
+  match l with
+  | [] => None
+  | y :: r => if tuple_eqb x y then Some r
+              else match remove_tuple x r with Some r' => Some (y :: r') | None => None end
+  end.
+
+Fixpoint same_tuples (a b : list (list lz)) : bool :=
+  match a with
+  | [] => match b with [] => true | _ => false end
+  | x :: r => match remove_tuple x b with Some b' => same_tuples r b' | None => false end
+  end.
+
+Record tgen := mkTGen {
+  tg_kind : tkind;
+  tg_active : bool;               (* the tagger is activated at this leg *)
+  tg_rec : list (list lz)         (* what the real tagger generates at this leg *)
+}.
+
+Definition gen_ok (cs : cellsys lz) (s : ost) (g : tgen) : bool :=
+  same_tuples (if tg_active g then model_gen cs (tg_kind g) s else []) (tg_rec g).
+
+Record tcase := mkTCase {
+  tc_o : ocase;
+  tc_layers : Z;                  (* neighbor_layers of the cell system *)
+  tc_gens : list (list tgen)      (* per recorded state (after initialize, after every update): its taggers *)
+}.
+
+Definition case_cs (c : tcase) : cellsys lz := torus_cs (oc_counts (tc_o c)) (tc_layers c).
+
+Fixpoint gens_ok (cs : cellsys lz) (states : list (ost * cmap)) (gens : list (list tgen)) : bool :=
+  match states, gens with
+  | [], [] => true
+  | sc :: sr, g :: gr => forallb (gen_ok cs (fst sc)) g && gens_ok cs sr gr
+  | _, _ => false
+  end.
+
+Definition check_tcase_run (c : tcase) : bool :=
+  forallb (fun n => 0 <? n) (oc_counts (tc_o c)) && (0 <=? tc_layers c)
+  && match run_case (tc_o c) with
+     | Some states => gens_ok (case_cs c) states (tc_gens c)
+     | None => false
+     end.
